@@ -370,7 +370,16 @@ def wmc_homomorphism(prog):
     t = arms.get("Lit")
     e = None
     ba = bool_arms(t) if t is not None else None
-    if not ba:
+    if not ba and t is not None and mir.is_call(strip(t)) and (strip(t)[1].local or getattr(strip(t)[1], "res_local", False)):
+        # the choice may live in an accessor of the weight table (`params.lit_weight(l, p)`): read it there if its body is a
+        # plain term; an accessor with state of its own (a lazily built table) is not something this rule can read
+        t2 = canon.inline_top(prog, te, t)
+        ba = bool_arms(t2) if t2 is not None else None
+        if not ba:
+            e = "?Lit arm delegates to %s, whose body is not a plain choice on the polarity" % strip(t)[1].name
+    if e:
+        pass
+    elif not ba:
         e = "Lit arm is not a choice on the polarity: %s" % show(t)
     else:
         cond, fv, tv = ba
